@@ -203,6 +203,12 @@ class Env:
         """array from a list (or nested list) of scalars."""
         return self.np.array(items, dtype=dtype)
 
+    def num(self, x):
+        """exact value of a double (the model keeps the binary value, not its decimal rendering)."""
+        if self.impl == 'model':
+            return R(Fr(float(x)))
+        return float(x)
+
     def const(self, text):
         """exact constant from decimal text."""
         if self.impl == 'model':
